@@ -426,6 +426,8 @@ def r_collision(c):
         raise AnalysisError(f"only {n} handlers of cache errors found (floor 2)")
     # TransformMapperCache.add: first-seen equal result wins
     fd = m.func("pytato.transform.TransformMapperCache.add")
+    mi_ = m.module_of(fd)
+    ci_ = m.cls("pytato.transform.TransformMapperCache")
 
     def cl(nd):
         if isinstance(nd, ast.Subscript) and "_result_to_cached_result" in \
@@ -434,6 +436,10 @@ def r_collision(c):
         if isinstance(nd, ast.Subscript) and "_input_key_to_result" in \
                 ast.unparse(nd.value) and isinstance(nd.ctx, ast.Store):
             return "INSERT"
+        if isinstance(nd, ast.Call):
+            tgt = m._private_target(nd, fd, mi_, ci_)
+            if tgt is not None and tgt is not fd:
+                return ("INLINE", tgt)     # a private helper is walked through
         return None
     ps = P.walk(fd, cl)
     bad = P.precedes(ps, "DEDUP-LOOKUP", "INSERT")
@@ -442,27 +448,59 @@ def r_collision(c):
             "dedup-lookup-before-insert", m.loc(m.module_of(fd), fd),
             "a result is inserted without first consulting the table of "
             "already-cached equal results (sharing is no longer preserved)")
-    # the table of equal results is keyed by the result itself (==), not a digest
-    keys = [ast.unparse(nd.slice) for nd in ast.walk(fd)
-            if isinstance(nd, ast.Subscript)
-            and "_result_to_cached_result" in ast.unparse(nd.value)]
+    # the table of equal results is keyed by the result itself (==), not a digest:
+    # in add() by its `result` parameter, in a private helper by the parameter that
+    # receives it
     rparam = fd.args.args[2].arg if len(fd.args.args) > 2 else "result"
-    c.check(len(keys) >= 2 and all(k == rparam for k in keys), "R13-COLLISION",
+    holder = {id(fd): rparam}
+    for call in ast.walk(fd):
+        if isinstance(call, ast.Call):
+            tgt = m._private_target(call, fd, mi_, ci_)
+            bind = m._bind_args(call, tgt) if tgt is not None else None
+            for k, v in (bind or {}).items():
+                if isinstance(v, ast.Name) and v.id == rparam:
+                    holder[id(tgt)] = k
+    keys, okk = [], True
+    for f_ in m.scope(fd):
+        for nd in ast.walk(f_):
+            if isinstance(nd, ast.Subscript) \
+                    and "_result_to_cached_result" in ast.unparse(nd.value):
+                keys.append(ast.unparse(nd.slice))
+                okk = okk and ast.unparse(nd.slice) == holder.get(id(f_))
+    c.check(len(keys) >= 2 and okk, "R13-COLLISION",
             "TransformMapperCache.add", "dedup-table-keyed-by-result",
             m.loc(m.module_of(fd), fd),
             f"the equal-results table is indexed by {sorted(set(keys))} instead of "
             f"the result object {rparam!r}: unequal results sharing a digest would be "
             "merged")
+
     # the value inserted is the de-duplicated one
-    ok = False
-    for n in ast.walk(fd):
-        if isinstance(n, ast.Assign) and isinstance(n.targets[0], ast.Name) \
-                and "_result_to_cached_result" in ast.unparse(n.value):
-            tgt = n.targets[0].id
-            for a in ast.walk(fd):
-                if isinstance(a, ast.Assign) and "_input_key_to_result" in \
-                        ast.unparse(a.targets[0]) and ast.unparse(a.value) == tgt:
-                    ok = True
+    def from_table(f_, v, depth=0):
+        """is the value v (in function f_) what the equal-results table holds?"""
+        if "_result_to_cached_result" in ast.unparse(v) and isinstance(v, ast.Subscript):
+            return True
+        if isinstance(v, ast.Name):
+            asg = [a for a in ast.walk(f_) if isinstance(a, ast.Assign)
+                   and any(isinstance(t, ast.Name) and t.id == v.id for t in a.targets)]
+            if any(from_table(f_, a.value, depth) for a in asg):
+                return True
+            # x registered as its own representative: table[x] = x
+            return any(isinstance(a, ast.Assign) and isinstance(a.targets[0], ast.Subscript)
+                       and "_result_to_cached_result" in ast.unparse(a.targets[0].value)
+                       and ast.unparse(a.targets[0].slice) == v.id
+                       and ast.unparse(a.value) == v.id for a in ast.walk(f_)) \
+                and depth > 0
+        if isinstance(v, ast.Call) and depth < 2:
+            tgt = m._private_target(v, f_, mi_, ci_)
+            if tgt is not None:
+                rets = [r for r in ast.walk(tgt) if isinstance(r, ast.Return)]
+                return bool(rets) and all(r.value is not None
+                                          and from_table(tgt, r.value, depth + 1)
+                                          for r in rets)
+        return False
+    ok = any(isinstance(a, ast.Assign) and "_input_key_to_result" in
+             ast.unparse(a.targets[0]) and isinstance(a.value, ast.Name)
+             and from_table(fd, a.value) for a in ast.walk(fd))
     c.check(ok, "R13-COLLISION", "TransformMapperCache.add",
             "inserts-deduplicated-result", m.loc(m.module_of(fd), fd),
             "the object stored under the input key is not the one returned by the "
